@@ -34,7 +34,7 @@ impl Rng {
 }
 
 /// Extended-text table: ext id 0 = none.
-pub const EXT: [&[u8]; 4] = [b"", b"ext one", b"x;y", b"Internal parser error"];
+pub const EXT: [&[u8]; 4] = [b"", b"ext \"one\"", b"x;y", b"Internal parser error"];
 
 pub fn ext_of(id: i64) -> Option<&'static [u8]> {
     if id <= 0 {
@@ -58,7 +58,7 @@ pub fn ext_id(e: &Error) -> i64 {
 /// Build an `Error` from the abstract record {code, ext}.
 pub fn mk_error(code: i64, ext: i64) -> Error {
     let code = code as i16;
-    let ec = ErrorCode::get_error(code).unwrap_or(ErrorCode::Custom(code, b"Custom"));
+    let ec = ErrorCode::get_error(code).unwrap_or(ErrorCode::Custom(code, b"Custom \"dev\" error"));
     match ext_of(ext) {
         None => Error::new(ec),
         Some(x) => Error::new(ec).extended(x),
